@@ -149,6 +149,20 @@ def f(x, n, b, xs):
       a = a + 100
   return (a, -1)
 '''),
+    ('x:one_shot_iterator_after_break', '''def f(x, n, b, xs):
+  it = iter(xs + [7, 8])
+  first = -1
+  for e in it:
+    if e > x:
+      first = t(1, e)
+      break
+  rest = list(it)
+  gen = (t(2, k) for k in range(n))
+  for v in gen:
+    if v == x or b:
+      return (first, rest, v, list(gen))
+  return (first, rest, -1, list(gen))
+'''),
     ('x:global_write_only_in_loop', '''def f(x, n, b, xs):
   global G
   for i in range(n):
@@ -187,6 +201,20 @@ WITNESS = [
   for i in range(n):
     pass
   return i
+'''),
+    ('w:walrus_in_loop_test', M_DEFAULT, '''def f(x, n, b, xs):
+  a = 0
+  i = 0
+  while (i := i + 1) <= n:
+    a = a + i
+  return (a, i)
+'''),
+    ('w:walrus_in_lazy_operand', M_DEFAULT, '''def f(x, n, b, xs):
+  a = 0
+  z = -1
+  if b and (z := x + 1) > 1:
+    a = a + z
+  return (a, z)
 '''),
     ('w:lists_closure_append', M_LISTS, '''def f(x, n, b, xs):
   l = [0]
@@ -247,9 +275,31 @@ def _append_on_enclosing_list(src):
   return False
 
 
+def _walrus_in_generated_function(src):
+  """A walrus whose target must outlive an expression that the converter wraps into a
+  function of its own: a while test, or an operand of and/or / a conditional expression."""
+  import ast
+  tree = ast.parse(src)
+  for node in ast.walk(tree):
+    holders = []
+    if isinstance(node, ast.While):
+      holders.append(node.test)
+    elif isinstance(node, ast.BoolOp):
+      holders += node.values[1:] if len(node.values) > 1 else []
+      holders.append(node.values[0])
+    elif isinstance(node, ast.IfExp):
+      holders += [node.body, node.orelse]
+    for h in holders:
+      if any(isinstance(k, ast.NamedExpr) for k in ast.walk(h)):
+        return True
+  return False
+
+
 def classify(p, m, r):
   """Structural patterns of a violation (fixed vocabulary, see known_findings.json)."""
   tags = set()
+  if r.get('kind') == 'mismatch' and _walrus_in_generated_function(p.src):
+    tags.add('walrus_target_bound_inside_generated_function')
   if r.get('kind') == 'mismatch' and _effectful_chain(p.src):
     tags.add('chained_comparison_effectful_middle_operand')
   if r.get('kind') == 'mismatch' and _branch_assign_to_later_for_target(p.src):
@@ -278,6 +328,8 @@ def programs(tier, seed):
     progs = sk + rnd.sample(sk3, 300)
     progs += gen.random_programs(300, seed) + gen.random_programs(80, seed + 1, max_depth=4, max_stmts=7)
   progs += [gen.Prog(n, s, {'extra'}, EXTRA_GLOBS.get(n)) for n, s in EXTRA]
+  from vf import exotic
+  progs += exotic.programs()       # tagged 'exotic': default + convert modes
   progs += [gen.Prog(n, s, {'witness'}) for n, _, s in WITNESS]
   import os
   if os.environ.get('VF_ONLY'):
@@ -298,7 +350,7 @@ def run(tier):
       return [wmode[p.name]]
     ms = [M_DEFAULT]
     q = rnd.random()
-    if 'extra' in p.tags or q < 0.15:
+    if 'extra' in p.tags or 'exotic' in p.tags or q < 0.15:
       ms.append(M_CONVERT)
     elif q < 0.25:
       ms.append(M_NONREC)
